@@ -44,6 +44,10 @@ type Conn struct {
 
 	state   imap.ConnState
 	session Session
+
+	// set when a non-synchronizing literal has been refused: its data is on
+	// its way and can't be told apart from commands
+	literalRefused bool
 }
 
 func newConn(c net.Conn, server *Server) *Conn {
@@ -310,7 +314,13 @@ func (c *Conn) readCommand(dec *imapwire.Decoder) error {
 			Text: fmt.Sprintf("%v completed", name),
 		}
 	}
-	return c.writeStatusResp(tag, resp)
+	if err := c.writeStatusResp(tag, resp); err != nil {
+		return err
+	}
+	if c.literalRefused {
+		return fmt.Errorf("refused non-synchronizing literal: %w", net.ErrClosed)
+	}
+	return nil
 }
 
 func (c *Conn) handleNoop(dec *imapwire.Decoder) error {
@@ -379,11 +389,11 @@ func (c *Conn) handleUnsubscribe(dec *imapwire.Decoder) error {
 
 func (c *Conn) checkBufferedLiteral(size int64, nonSync bool) error {
 	if size > 4096 {
-		return &imap.Error{
+		return c.refuseLiteral(nonSync, &imap.Error{
 			Type: imap.StatusResponseTypeNo,
 			Code: imap.ResponseCodeTooBig,
 			Text: "Literals are limited to 4096 bytes for this command",
-		}
+		})
 	}
 
 	return c.acceptLiteral(size, nonSync)
@@ -391,10 +401,10 @@ func (c *Conn) checkBufferedLiteral(size int64, nonSync bool) error {
 
 func (c *Conn) acceptLiteral(size int64, nonSync bool) error {
 	if nonSync && size > 4096 && !c.server.options.caps().Has(imap.CapLiteralPlus) {
-		return &imap.Error{
+		return c.refuseLiteral(nonSync, &imap.Error{
 			Type: imap.StatusResponseTypeBad,
 			Text: "Non-synchronizing literals are limited to 4096 bytes",
-		}
+		})
 	}
 
 	if nonSync {
@@ -402,6 +412,17 @@ func (c *Conn) acceptLiteral(size int64, nonSync bool) error {
 	}
 
 	return c.writeContReq("Ready for literal data")
+}
+
+// refuseLiteral is called when a literal is rejected with err. The client
+// sends the data of a non-synchronizing literal without waiting for the
+// server: the connection is closed once the command has been answered so that
+// this data is never interpreted as commands.
+func (c *Conn) refuseLiteral(nonSync bool, err error) error {
+	if nonSync {
+		c.literalRefused = true
+	}
+	return err
 }
 
 func (c *Conn) canAuth() bool {
